@@ -220,7 +220,7 @@ Definition array_encode (enc : pv -> res bytes) (chunk : option Z) (cls_len : Z)
                | Some c => if zlen d =? 0 then Ok [] else Err DataError
                | None => if _length =? 0 then Ok [] else Err DataError
                end
-      | _ => Err (Foreign TypeError)                     (* len(values): outside the try (DESIGN F22) *)
+      | _ => Err DataError                               (* len(values) raises inside the try (pycomm3 5013e00) *)
       end
   | Some items =>
       if zlen items <? _length then Err DataError
